@@ -212,6 +212,13 @@ func (w *World) triggerReady(a Action) bool {
 		return false // other clients begin once main has booted and started the pipeline
 	}
 	switch a.When {
+	case "acked", "emitted", "written":
+		// a count that can no longer be reached must not block the client for ever
+		if w.or != nil && w.or.quiescent(w) {
+			return true
+		}
+	}
+	switch a.When {
 	case "", "now":
 		return true
 	case "acked":
